@@ -125,6 +125,7 @@ namespace
             caller<C, Form>::call(tf, ff);
             check_counts(c, cond, Form, "void");
         }
+#ifdef C18_WITH_LAZY
         // --- std::string by value, branches of different return types, untaken branch ill-formed if instantiated,
         //     and self must be an identity function
         if (begin_case(std::string(form_name(Form)) + " cond=" + (C ? "true" : "false")
@@ -147,6 +148,9 @@ namespace
             if (out != (cond ? "payload!" : "payload?")) fail("lazy", cond, Form, "wrong-result", "expected payload" + std::string(cond ? "!" : "?") + ", observed " + out);
             if (seen != &s) fail("lazy", cond, Form, "self-not-identity", "self(x) did not return x itself");
         }
+#else
+        g_case++;  // keep the case numbering independent of the build flavour
+#endif
     }
 }
 
